@@ -76,3 +76,32 @@ Proof.
   cbn [s_run fold_left s_ev]. unfold s_init. rewrite map_map. apply map_ext. intros [[d r] gv].
   unfold s_step; cbn. destruct (gv && r); reflexivity.
 Qed.
+
+(* ---- AdamW: first update = decoupled decay, then a move of magnitude lr ------------------------------------- *)
+Lemma adamw_first_update (c : adam_conf) theta g k :
+  a_maximize c = false -> Q2R (a_eps c) = 0 ->
+  Q2R (a_beta1 c) <> 1 -> Q2R (a_beta2 c) < 1 -> g k <> 0 ->
+  snd (adamw_update c adam_state0 theta g) k =
+  (theta k - Q2R (a_lr c) * Q2R (a_lambda c) * theta k) - Q2R (a_lr c) * (g k / Rabs (g k)).
+Proof.
+  intros Hx He H1 H2 Hg. unfold adamw_update, adam_state0, adam_core. rewrite Hx. cbn [snd].
+  rewrite He. rewrite !pow_1.
+  replace ((Q2R (a_beta2 c) * 0 + (1 - Q2R (a_beta2 c)) * (g k * g k)) / (1 - Q2R (a_beta2 c))) with (Rsqr (g k))
+    by (unfold Rsqr; field; lra).
+  rewrite sqrt_Rsqr_abs.
+  assert (Ha : Rabs (g k) <> 0) by (apply Rabs_no_R0; exact Hg).
+  field. split; [exact Ha|lra].
+Qed.
+
+Lemma adamw_model_first_step (h : adamw_hyper) theta g :
+  adamw_maximize h = false -> Q2R (adamw_epsilon h) = 0 ->
+  Q2R (adamw_beta1 h) <> 1 -> Q2R (adamw_beta2 h) < 1 -> (forall k, g k <> 0) ->
+  map data (ps (adamw_model fun_ops h [(theta, true, true)] [Backward [Some g]; Step])) =
+  [fun k => (theta k - Q2R (adamw_lr h) * Q2R (adamw_weight_decay h) * theta k) - Q2R (adamw_lr h) * (g k / Rabs (g k))].
+Proof.
+  intros Hx He H1 H2 Hg. rewrite adamw_refines.
+  cbn [s_init map s_run fold_left s_ev s_backward s_backward1 s_step sreq sacc sdata sgiven sstate andb].
+  f_equal. extensionality k.
+  replace (fun k : nat => 0 + g k) with g by (extensionality j; lra).
+  apply (adamw_first_update (adamw_conf_of h)); auto.
+Qed.
